@@ -31,7 +31,17 @@ import (
 
 // Read http api by HTTP GET and parse the code/data.
 func ApiRequest(url string) (code int, body []byte, err error) {
-	if body, err = apiGet(url); err != nil {
+	var status int
+	if status, body, err = apiGet(url); err != nil {
+		return
+	}
+
+	// A response which is not 2xx is a failure whatever the body is, for example,
+	// the plain error of Error() is responded as the error text with status 500,
+	// and that text is not the standard response, even when it looks like one.
+	if status < http.StatusOK || status >= http.StatusMultipleChoices {
+		code = status
+		err = fmt.Errorf("api status failed, url=%v, status=%v, body=%v", url, status, string(body))
 		return
 	}
 
@@ -43,13 +53,14 @@ func ApiRequest(url string) (code int, body []byte, err error) {
 }
 
 // Read http api by HTTP GET.
-func apiGet(url string) (body []byte, err error) {
+func apiGet(url string) (status int, body []byte, err error) {
 	var resp *http.Response
 	if resp, err = http.Get(url); err != nil {
 		err = fmt.Errorf("api get failed, url=%v, err is %v", url, err)
 		return
 	}
 	defer resp.Body.Close()
+	status = resp.StatusCode
 
 	if body, err = ioutil.ReadAll(resp.Body); err != nil {
 		err = fmt.Errorf("api read failed, url=%v, err is %v", url, err)
